@@ -1,7 +1,7 @@
 (* Properties_C06.v — FITS serialisation round-trips every table exactly, in the documented layout.
    Statements only; proofs are in C06_Proofs.v (L2, the byte format), C06_L1.v (L1, photospline's logic) and C06_Wf.v
    (well-formedness of the produced document from table-level conditions; operator==). *)
-From Coq Require Import List NArith ZArith Bool.
+From Coq Require Import List NArith ZArith Bool Lia.
 From Coq Require String.
 From PS Require Import Generated_fits FitsModel FitsWf C06_Proofs C06_L1 C06_Wf C06_AuxTie.
 From PS Require AuxModel Generated_aux.
@@ -24,14 +24,21 @@ Proof. intros c W. split; [apply decode_encode_card; exact W|apply encode_card_l
 
 (* L1: read_fits_core (as written) applied to what write_fits_core produces gives back the table: ndim, orders, knots,
    coefficients (bit patterns), naxes, strides, extents (the knot-derived default when the table has none), auxiliary
-   keys in order with values padded to 8 characters and embedded quotes doubled (fits_quote) *)
+   keys in order, each value followed by the blanks that pad its card text to 8 characters (FitsWf.aux_reloaded) and
+   nothing else — embedded quotes, doubled on the card, come back single *)
 Theorem C06_roundtrip_L1 : forall t, wf_table t = true ->
   exists t', of_doc (to_doc t) = Ok t' /\ table_eq_upto_padding t t'.
 Proof. exact roundtrip_L1. Qed.
 
-(* "values may gain trailing blanks only" for quote-free values *)
-Theorem C06_aux_padding_only : forall v, no_char quote v = true -> fits_quote v = pad_right 8 v.
-Proof. intros v H. unfold fits_quote. rewrite escape_no_quote by exact H. reflexivity. Qed.
+(* "values may gain trailing blanks only", for EVERY value (no condition on v: quotes in any position, any number of them):
+   the reader's text for the card the writer makes of v — opening quote, every quote doubled, blank padding to 8 characters,
+   closing quote — is v followed by 8 - (length v + number of quotes in v) blanks (none when that is not positive) *)
+Theorem C06_aux_padding_only : forall k v,
+  aux_value (raw_value (str_card k v)) = v ++ repeat sp (8 - (length v + count_char quote v)).
+Proof. intros k v. exact (aux_value_fits_quote v). Qed.
+(* the un-doubling loop of the reader inverts the doubling of the writer in front of any blank padding *)
+Theorem C06_undouble_inverts_doubling : forall v j, unescape_quotes (escape_quotes v ++ repeat sp j) = v ++ repeat sp j.
+Proof. exact unescape_escape_pad. Qed.
 
 (* bytes: strict and lenient (C07) readers, with the card-level well-formedness of the produced document as an explicit
    hypothesis (kept: C07/C08 use it for documents that do not come from wf_table' tables) *)
@@ -60,6 +67,12 @@ Theorem C06_write_key_accepted_entry_ok : forall ks vs,
   ((length (lit ks) <= 8)%nat \/ (length (lit ks) + Nat.max 8 (enc_len (lit vs)) <= 66)%nat) ->
   aux_entry_ok (lit ks, lit vs) = true.
 Proof. exact write_key_accepted_entry_ok. Qed.
+Theorem C06_write_key_fit_gap : forall ks vs,
+  AuxModel.accepts Generated_aux.gen_params ks vs = true -> (8 < length (lit ks))%nat ->
+  (length (lit ks) + Nat.max 8 (enc_len (lit vs)) <= 66)%nat \/
+  (length (lit ks) + enc_len (lit vs) = 67)%nat \/ (58 < length (lit ks) <= 66)%nat.
+Proof. exact fit_condition_gap. Qed.
+
 (* the names fits_movnam_hdu compares (EXTNAME, failing that HDUNAME; its search starts at the primary HDU) are reserved in the
    current source tree: no auxiliary entry of a wf_table' table — and nothing write_key accepts — can put them into the primary
    header, so the primary HDU never answers to KNOTSn / EXTENTS *)
@@ -68,11 +81,29 @@ Theorem C06_name_keys_reserved :
   (forall ks vs, lit ks = s_EXTNAME \/ lit ks = s_HDUNAME -> AuxModel.accepts Generated_aux.gen_params ks vs = false) /\
   (forall t name, wf_table' t = true -> name_matches name (primary_hdu t) = false).
 Proof. exact name_keys_reserved. Qed.
-Theorem C06_write_key_fit_gap : forall ks vs,
-  AuxModel.accepts Generated_aux.gen_params ks vs = true -> (8 < length (lit ks))%nat ->
-  (length (lit ks) + Nat.max 8 (enc_len (lit vs)) <= 66)%nat \/
-  (length (lit ks) + enc_len (lit vs) = 67)%nat \/ (58 < length (lit ks) <= 66)%nat.
-Proof. exact fit_condition_gap. Qed.
+(* the two Coq models of the auxiliary-key code are models of the same functions:
+   reader — FitsModel.aux_value (this property) and AuxModel.reader_value (C16) agree on every character string;
+   writer — for a key that passes write_key's alphabet checks and a printable value, C16's limit is max_data_len and
+   write_key accepts exactly when FitsModel.write_key_offer (the function the check asks for the predicted refusals: reserved
+   name, or encoded length — every quote counted twice — above 68 resp. 67 - keylen) says Stored, and refuses as too long otherwise *)
+Theorem C06_aux_reader_is_C16_reader : forall raw,
+  lit (AuxModel.reader_value Generated_aux.gen_params raw) = aux_value (lit raw).
+Proof. exact reader_agree. Qed.
+Theorem C06_write_key_offer_is_C16_write_key : forall ks vs m,
+  AuxModel.check_key Generated_aux.gen_params ks = inr m -> AuxModel.forall_chars AuxModel.is_printable vs = true ->
+  m = N.of_nat (max_data_len (lit ks)) /\
+  (AuxModel.accepts Generated_aux.gen_params ks vs = true <-> write_key_offer (lit ks) (lit vs) = Stored) /\
+  (AuxModel.accepts Generated_aux.gen_params ks vs = false <-> write_key_offer (lit ks) (lit vs) = RefusedTooLong).
+Proof. exact offer_agree. Qed.
+(* ANY auxiliary value write_key accepts round-trips exactly: the other parts of the table satisfy wf_table' (set_aux t [] is t
+   without auxiliary entries), every entry is a pair write_key accepts — whatever quotes the value holds — and its card fits in the
+   standard form (always, for keys of at most 8 characters; C06_write_key_fit_gap says which HIERARCH entries do not).  Then both
+   readers return a table with every array equal, the same keys in the same order, and each value followed by padding blanks only *)
+Theorem C06_accepted_values_roundtrip : forall t, wf_table' (set_aux t []) = true -> Forall accepted_entry (t_aux t) ->
+  exists t', of_bytes (to_bytes t) = Ok t' /\ read_bytes (to_bytes t) = Ok t' /\ table_eq_upto_padding t t' /\
+             map fst (t_aux t') = map fst (t_aux t) /\
+             Forall2 (fun kv kv' => snd kv' = snd kv ++ repeat sp (8 - enc_len (snd kv))) (t_aux t) (t_aux t').
+Proof. exact accepted_values_roundtrip. Qed.
 
 (* "the reloaded table compares equal": table_op_eq is the model of splinetable::operator== (C06_Wf.v, section H).
    Every field operator== reads is equal in the reloaded table, so it compares to anything exactly as the original does,
@@ -137,8 +168,51 @@ Definition ex_table2 : table :=
                (repeat 75 30, repeat 122 36)] |}.
 Example ex_wf_table'2 : wf_table' ex_table2 = true. Proof. vm_compute. reflexivity. Qed.
 Example ex_roundtrip2 : exists t', of_bytes (to_bytes ex_table2) = Ok t' /\ nth 3 (t_aux t') ([], []) =
-  ([81; 85; 79; 84; 69; 68], [105; 116; 39; 39; 115; 32; 39; 39; 39; 39]).
+  ([81; 85; 79; 84; 69; 68], [105; 116; 39; 115; 32; 39; 39]).                                (* it's '' : 7 characters + 3 quotes >= 8, no padding *)
 Proof. eexists. split; vm_compute; reflexivity. Qed.
+(* auxiliary values with quotes in every position: single (it's), doubled (a''b), leading ('lead), trailing (trail'), a run of
+   three, a lone quote, quotes only up to the limit (34 quotes = 68 encoded characters), and a HIERARCH key whose value ends in a
+   quote at the limit of its card (30 + 36 = 66).  wf_table' holds; write_key (C16's model) accepts every entry; the card of the
+   first entry is  QUOTED  = 'it''s   '  ; both readers return each value with its padding blanks and single quotes *)
+Module ExQuotes.
+Import String.
+Local Open Scope string_scope.
+Definition ex_aux_strings : list (string * string) :=
+  [("QUOTED", "it's"); ("DOUBLED", "a''b"); ("LEADING", "'lead"); ("TRAILING", "trail'"); ("THREE", "'''"); ("LONE", "'");
+   ("ALLQ", "''''''''''''''''''''''''''''''''''");
+   ("KKKKKKKKKKKKKKKKKKKKKKKKKKKKKK", "zzzzzzzzzzzzzzzzzzzzzzzzzzzzzzzzzz'")].
+Definition ex_table_q : table :=
+  {| t_order := t_order ex_table; t_knots := t_knots ex_table; t_naxes := t_naxes ex_table; t_strides := t_strides ex_table;
+     t_coeffs := t_coeffs ex_table; t_extents := t_extents ex_table; t_periods := None;
+     t_aux := map (fun kv => (lit (fst kv), lit (snd kv))) ex_aux_strings |}.
+Example ex_q_wf : wf_table' ex_table_q = true /\ wf_table' (set_aux ex_table_q []) = true. Proof. split; vm_compute; reflexivity. Qed.
+Example ex_q_accepted : Forall accepted_entry (t_aux ex_table_q).
+Proof.
+  unfold ex_table_q, t_aux, ex_aux_strings. cbn [map fst snd].
+  repeat (apply Forall_cons; [match goal with |- accepted_entry (lit ?k, lit ?v) =>
+            exists k, v; split; [reflexivity|split; [vm_compute; reflexivity|vm_compute; lia]] end|]).
+  apply Forall_nil.
+Qed.
+Example ex_q_offers : map (fun kv => write_key_offer (lit (fst kv)) (lit (snd kv))) ex_aux_strings = repeat Stored 8 /\
+  (* one more quote and write_key refuses: 35 quotes = 70 encoded characters; 69 characters of which one is a quote; the HIERARCH value one longer *)
+  write_key_offer (lit "ALLQ") (repeat quote 35) = RefusedTooLong /\
+  write_key_offer (lit "MAX") (repeat 122%N 67 ++ [quote])%list = RefusedTooLong /\ write_key_offer (lit "MAX") (repeat 122%N 66 ++ [quote])%list = Stored /\
+  write_key_offer (lit "KKKKKKKKKKKKKKKKKKKKKKKKKKKKKK") (repeat 122%N 36 ++ [quote])%list = RefusedTooLong /\
+  AuxModel.accepts Generated_aux.gen_params "ALLQ" "'''''''''''''''''''''''''''''''''''" = false.
+Proof. repeat split; vm_compute; reflexivity. Qed.
+Example ex_q_card : encode_card (str_card (lit "QUOTED") (lit "it's")) = pad_right 80 (lit "QUOTED  = 'it''s   '") /\
+  encode_card (str_card (lit "THREE") (lit "'''")) = pad_right 80 (lit "THREE   = '''''''  '") /\
+  decode_card (pad_right 80 (lit "THREE   = '''''''  '")) = Card (lit "THREE") (VStr (lit "''''''  ")).
+Proof. repeat split; vm_compute; reflexivity. Qed.
+Example ex_q_roundtrip : exists t', of_bytes (to_bytes ex_table_q) = Ok t' /\ read_bytes (to_bytes ex_table_q) = Ok t' /\
+  t_coeffs t' = t_coeffs ex_table_q /\
+  t_aux t' = map (fun kv => (lit (fst kv), lit (snd kv)))
+    [("QUOTED", "it's   "); ("DOUBLED", "a''b  "); ("LEADING", "'lead  "); ("TRAILING", "trail' "); ("THREE", "'''  "); ("LONE", "'      ");
+     ("ALLQ", "''''''''''''''''''''''''''''''''''");
+     ("KKKKKKKKKKKKKKKKKKKKKKKKKKKKKK", "zzzzzzzzzzzzzzzzzzzzzzzzzzzzzzzzzz'")].
+Proof. eexists. split; [|split; [|split]]; vm_compute; reflexivity. Qed.
+Example ex_q_bytes_length : List.length (to_bytes ex_table_q) = 23040%nat. Proof. vm_compute. reflexivity. Qed.
+End ExQuotes.
 (* one more character in either maximal value and the card no longer fits: wf_table' is false (and so is wf_doc) *)
 Example ex_not_wf_table' :
   wf_table' {| t_order := [0]; t_knots := [[0; 1]]; t_naxes := [1]; t_strides := [1]; t_coeffs := [0]; t_extents := None;
@@ -195,12 +269,16 @@ Print Assumptions C06_decimal.
 Print Assumptions C06_card.
 Print Assumptions C06_roundtrip_L1.
 Print Assumptions C06_aux_padding_only.
+Print Assumptions C06_undouble_inverts_doubling.
 Print Assumptions C06_roundtrip_partial.
 Print Assumptions C06_wf_doc.
 Print Assumptions C06_roundtrip.
 Print Assumptions C06_write_key_accepted_entry_ok.
 Print Assumptions C06_write_key_fit_gap.
 Print Assumptions C06_name_keys_reserved.
+Print Assumptions C06_aux_reader_is_C16_reader.
+Print Assumptions C06_write_key_offer_is_C16_write_key.
+Print Assumptions C06_accepted_values_roundtrip.
 Print Assumptions C06_reload_compares_equal.
 Print Assumptions C06_roundtrip_compares_equal.
 Print Assumptions C06_nan_compares_unequal.
